@@ -467,4 +467,29 @@ example : (doUpdate exState exNew []).active.map (fun a => (a.cfg.name, a.procs.
 example : (doUpdate exState exNew ["fresh"]).active.map (fun a => (a.cfg.name, a.procs.map (·.pid)))
     = [("gone", [11]), ("chg", [12]), ("keep", [13]), ("fresh", [0])] := by decide +kernel
 
+/-! ### concrete instances of the group-level characterisations: one option differs, in either direction -/
+
+def exPool (evs : List String) (buf : Int) (h : String) : GConfig :=
+  { kind := .pool, name := "l", priority := 999, procs := [exP "l" "/bin/l"], buffer_size := buf, pool_events := evs, result_handler := h }
+def exFcgi (url : String) (backlog mode : Option Int) : GConfig :=
+  { kind := .fcgi, name := "f", priority := 999, procs := [exP "f" "/bin/f"], socket := url, socket_backlog := backlog, socket_mode := mode }
+
+-- a subscription lost, gained, replaced; buffer size up, down; handler replaced
+example : gconfigNe (exPool ["A"] 10 "h") (exPool ["A", "B"] 10 "h") = true := by decide +kernel
+example : gconfigNe (exPool ["A", "B"] 10 "h") (exPool ["A"] 10 "h") = true := by decide +kernel
+example : gconfigNe (exPool ["A", "C"] 10 "h") (exPool ["A", "B"] 10 "h") = true := by decide +kernel
+example : gconfigNe (exPool ["A"] 11 "h") (exPool ["A"] 10 "h") = true := by decide +kernel
+example : gconfigNe (exPool ["A"] 9 "h") (exPool ["A"] 10 "h") = true := by decide +kernel
+example : gconfigNe (exPool ["A"] 10 "h2") (exPool ["A"] 10 "h") = true := by decide +kernel
+example : gconfigNe (exPool ["A", "B"] 10 "h") (exPool ["A", "B"] 10 "h") = false := by decide +kernel
+-- fcgi: backlog gained / lost / changed, mode changed, url changed; a plain program group of the same name
+example : gconfigNe (exFcgi "tcp://h:1" (some 5) none) (exFcgi "tcp://h:1" none none) = true := by decide +kernel
+example : gconfigNe (exFcgi "tcp://h:1" none none) (exFcgi "tcp://h:1" (some 5) none) = true := by decide +kernel
+example : gconfigNe (exFcgi "tcp://h:1" (some 5) none) (exFcgi "tcp://h:1" (some 6) none) = true := by decide +kernel
+example : gconfigNe (exFcgi "unix:///s" none (some 448)) (exFcgi "unix:///s" none (some 511)) = true := by decide +kernel
+example : gconfigNe (exFcgi "tcp://h:1" none none) (exFcgi "tcp://h:2" none none) = true := by decide +kernel
+example : gconfigNe (exFcgi "tcp://h:1" none none) { exG "f" "/bin/f" with } = true := by decide +kernel
+example : gconfigNe { exG "f" "/bin/f" with } (exFcgi "tcp://h:1" none none) = true := by decide +kernel
+example : sameGroupOptions (exPool ["A", "B"] 10 "h") (exPool ["A", "B"] 10 "h") := (ne_characterised _ _).mp (by decide +kernel)
+
 end Sv.Props.C15
